@@ -76,6 +76,9 @@ def propertyHolds (registered : List Nat) (uses : List Use) (es : List Event) : 
   let multiScript := ids.filter fun n => defsOfScript n es > 1
   let multiClass := ids.filter fun n => defsOfClass n es > 1
   let multiOnce := [1, 2, 3].filter fun h => oncesOf h es > 1
+  -- a once handle that is used gets its content (exactly once: at most once is `multiOnce`)
+  let usedOnce := (uses.filterMap fun u => match u with | .once h => some h | _ => none).eraseDups
+  let missingOnce := usedOnce.filter fun h => oncesOf h es == 0
   let inlinedRegistered := registered.filter fun id => defsOfClass id es > 0
   let firstIdx := fun (p : Event → Bool) => es.findIdx? p
   let lateScript := ids.filter fun n =>
@@ -102,6 +105,7 @@ def propertyHolds (registered : List Nat) (uses : List Use) (es : List Event) : 
   else if !multiScript.isEmpty then some s!"script definition emitted more than once: {multiScript}"
   else if !multiClass.isEmpty then some s!"CSS rule emitted more than once: {multiClass}"
   else if !multiOnce.isEmpty then some s!"once content emitted more than once: {multiOnce}"
+  else if !missingOnce.isEmpty then some s!"once handle used but its content never emitted: {missingOnce}"
   else if !inlinedRegistered.isEmpty then some s!"class registered with the middleware was inlined: {inlinedRegistered}"
   else if !lateScript.isEmpty then some s!"script used before (or without) its definition: {lateScript}"
   else if !lateClass.isEmpty then some s!"class name used before (or without) its rule: {lateClass}"
